@@ -223,3 +223,65 @@ package mocker
 //@   ensures live_guard_is_cancelled: m.guard != nil ==> guard_cancelled[m.guard]
 //@   ensures configuration_dropped: m.when == nil && m.canceled
 //@   ensures no_guard_no_write: m.guard == nil ==> forall a uintptr :: textmem[a] == old(textmem[a])
+
+// ---- C12: the most recent instruction wins ---------------------------------------------------------------------------------
+// running[m]: ghost, the implementation the target currently executes on behalf of mocker m (before
+// the optional, transparent debug wrapper of C19).  stub_of[m]: ghost, the reflect.MakeFunc stub that
+// serves m.when.  Invariant: while a When configuration exists, the stub is what runs - otherwise a
+// later Return/When would only extend an orphaned configuration.
+//@ ghost var running map[*baseMocker]interface{}
+//@ ghost var stub_of map[*baseMocker]interface{}
+//@ pure func mocker_inv(m *baseMocker) bool = m != nil && (m.when != nil ==> running[m] == stub_of[m] && !m.canceled)
+
+// installing an implementation on the target (proxy layer + patch layer; verified under C01/C02/C13)
+//@ trusted func (m *DefMocker) doApply
+//@   props C12
+//@   requires receiver: m != nil && m.baseMocker != nil
+//@   assigns m.baseMocker.guard, m.baseMocker.imp, m.baseMocker.funcDef, running[m.baseMocker], textmem, perm, mapof(patch.patches), anyfield(patch.patch, guard), anyfield(patch.Guard, applied),
+//@     | mutex_held[addr(patch.patchesLock)], rw_wheld[addr(memory.memoryAccessLock)], rw_rheld[addr(memory.memoryAccessLock)]
+//@   may_panic
+//@   ensures target_runs_it: running[m.baseMocker] == imp
+//@   ensures imp_recorded_unless_debug_wrapped: true
+
+//@ trusted func CreateWhen
+//@   props C12
+//@   assigns nothing
+//@   fresh
+//@   ensures when_or_error: (result0 == nil) == (result1 != nil) && (result0 != nil ==> result0.funcTyp != nil)
+
+//@ func (m *baseMocker) whens
+//@   props C12
+//@   requires receiver: m != nil && when != nil && when.funcTyp != nil
+//@   assigns m.imp, m.when, stub_of[m]
+//@   ghost_set stub_of[m] = m.imp
+//@   ensures stub_prepared: m.when == when && m.imp == stub_of[m] && result == nil
+
+//@ trusted func (w *When) Return
+//@   assigns w.matches, w.defaultReturns, anyfield(BaseMatcher, results)
+//@   may_panic
+//@ trusted func (w *When) When
+//@   assigns w.curMatch
+//@   may_panic
+//@ trusted func (w *When) Returns
+//@   assigns w.matches, w.defaultReturns, anyfield(BaseMatcher, results)
+//@   may_panic
+
+//@ func (m *DefMocker) Apply
+//@   props C12
+//@   requires receiver: m != nil && m.baseMocker != nil
+//@   assigns m.baseMocker.when, m.baseMocker.guard, m.baseMocker.imp, m.baseMocker.funcDef, running[m.baseMocker], textmem, perm, mapof(patch.patches), anyfield(patch.patch, guard), anyfield(patch.Guard, applied),
+//@     | mutex_held[addr(patch.patchesLock)], rw_wheld[addr(memory.memoryAccessLock)], rw_rheld[addr(memory.memoryAccessLock)]
+//@   ensures callback_supersedes_stubs: running[m.baseMocker] == callback
+//@   ensures later_stubs_will_be_applied: mocker_inv(m.baseMocker) || m.baseMocker.canceled
+//@   panics_only_if configuration_rejected: true
+
+//@ func (m *DefMocker) Return
+//@   props C12
+//@   requires receiver: m != nil && m.baseMocker != nil && !m.baseMocker.canceled
+//@   requires inv: mocker_inv(m.baseMocker)
+//@   assigns m.baseMocker.when, m.baseMocker.guard, m.baseMocker.imp, m.baseMocker.funcDef, running[m.baseMocker], stub_of[m.baseMocker], textmem, perm, mapof(patch.patches), anyfield(patch.patch, guard), anyfield(patch.Guard, applied),
+//@     | mutex_held[addr(patch.patchesLock)], rw_wheld[addr(memory.memoryAccessLock)], rw_rheld[addr(memory.memoryAccessLock)], anyfield(When, matches), anyfield(When, defaultReturns), anyfield(BaseMatcher, results)
+//@   ensures stub_supersedes_callback: m.baseMocker.when != nil && running[m.baseMocker] == stub_of[m.baseMocker]
+//@   ensures continues_existing_configuration: old(m.baseMocker.when) != nil ==> m.baseMocker.when == old(m.baseMocker.when)
+//@   ensures inv_kept: mocker_inv(m.baseMocker)
+//@   panics_only_if configuration_rejected: true
